@@ -134,6 +134,44 @@ def minada_addr_rule(rep, F):
     rep.floor("functions pricing the placeholder output of new_empty", 4, n)
 
 
+def helper_value_size_gate(F, fid, bb, org):
+    """a `?`-continued call that dominates `bb`, goes to a crate function whose own success return is dominated by the passing
+    edge of `serialised length <=> limit` and that receives config.max_value_size: the gate moved into a helper (wrapper-aware,
+    one level). -> name of the helper or None"""
+    fn = F.fns[fid]
+    for c in F.calls(fid):
+        to = c.to or ""
+        if to not in F.fns or not c.info.get("local"):
+            continue
+        k = mp.try_continue(F, fid, c)
+        if k is None or not mp.dominated_by(fn, bb, k):
+            continue
+        if not any(any(x.endswith("TransactionBuilderConfig.max_value_size") for x in org.of_operand(a)) for a in fn["bbs"][c.bb]["t"][3]):
+            continue
+        horg = ff.Origins(F, to)
+        oks = [b for b, kind, loc in mp.success_stores(F, to)]
+        if not oks:
+            continue
+        good = True
+        for b in oks:
+            g = False
+            for s_, edge, d in mp.dominating_guards(F, to, b, horg):
+                if d["kind"] == "bin" and d["op"] in ("Gt", "Ge", "Lt", "Le"):
+                    l, r = d["lhs"], d["rhs"]
+                    lsz = any(x.startswith("call:") and (x.split("@")[0].endswith("::len") or x.split("@")[0].endswith("Value::to_bytes")) for x in l)
+                    rsz = any(x.startswith("call:") and (x.split("@")[0].endswith("::len") or x.split("@")[0].endswith("Value::to_bytes")) for x in r)
+                    larg = any(x.startswith("arg:") for x in l) and not lsz
+                    rarg = any(x.startswith("arg:") for x in r) and not rsz
+                    if lsz and rarg and ((d["op"] in ("Gt", "Ge") and edge == "0") or (d["op"] in ("Le", "Lt") and edge != "0")):
+                        g = True
+                    if rsz and larg and ((d["op"] in ("Lt", "Le") and edge == "0") or (d["op"] in ("Ge", "Gt") and edge != "0")):
+                        g = True
+            good = good and g
+        if good:
+            return to
+    return None
+
+
 def check(rep, F, tier, replay=None):
     # ---- GATE-output --------------------------------------------------------------------------
     rep.rule("GATE-output", "TransactionOutputs::add in add_output is dominated by the passing edges of the value-size and min-ADA comparisons")
@@ -183,6 +221,8 @@ def check(rep, F, tier, replay=None):
                     rmax = has_origin(a1, field_origin("TransactionBuilderConfig", "max_value_size"))
                     if lsz and rmax and mp.cmp3_implies(edge, "le"):
                         size_ok = True
+            if not size_ok and helper_value_size_gate(F, fid, c.bb, ff.Origins(F, fid)):
+                size_ok = True
             rep.inst("GATE-output", 2)
             if not size_ok:
                 rep.violation("GATE-output", "value-size", "add_output admits an output at %s without having passed the `value size <= max_value_size` comparison" % facts.loc_str(c.loc, fn), {"guards": [(g[1], g[2].get("op") or g[2].get("callee")) for g in guards]})
@@ -334,6 +374,8 @@ def check(rep, F, tier, replay=None):
                 both = d.get("lhs", []) + d.get("rhs", [])
                 if d["kind"] == "bin" and d["op"] in ("Gt", "Le", "Lt", "Ge") and any(x.endswith("TransactionBuilderConfig.max_value_size") for x in both) and any(x.startswith("call:") and x.split("@")[0].endswith("::len") for x in both):
                     g_ = True
+            if not g_ and helper_value_size_gate(F, fid_, bi, org_):
+                g_ = True
             ok_ = ok_ and g_
         if not ok_:
             rep.violation("COLRET-size", nm_.rsplit("::", 1)[-1], "%s stores a collateral return without comparing its value size with max_value_size: 30 assets on the collateral input, max_value_size 100 -> a return output with a 159-byte value is accepted (add_output rejects the same output)" % nm_.rsplit("::", 1)[-1], {})
